@@ -664,8 +664,11 @@ class cst(exp):
             # (self may be shared, e.g. the value of a register in a mapper)
             return cst(self.v >> n.value, self.size)
         else:
-            self.sf = False
-            return exp.__rshift__(self, n)
+            # the shifted operand is read as unsigned: flag a copy, the
+            # constant itself may be shared with other expressions
+            x = cst(self.v, self.size)
+            x.sf = False
+            return exp.__rshift__(x, n)
 
     @_checkarg_numeric
     def __floordiv__(self, n):
@@ -675,8 +678,9 @@ class cst(exp):
             v = self.v - (1 << self.size) if self.v >> (self.size - 1) else self.v
             return cst(v >> n.value, self.size)
         else:
-            self.sf = True
-            return exp.__floordiv__(self, n)
+            x = cst(self.v, self.size)
+            x.sf = True
+            return exp.__floordiv__(x, n)
 
     @_checkarg_numeric
     def __radd__(self, n):
